@@ -633,9 +633,15 @@ class ResetInterp:
                             memo = getattr(cx, 'scalar_affs', None)
                             if memo is None:
                                 memo = cx.scalar_affs = {}
+                            vals_ = getattr(cx, 'sym_values', None)
+                            if vals_ is None:
+                                vals_ = cx.sym_values = {}
                             for e in tg.elts:
                                 if isinstance(e, ast.Name):
                                     memo[e.id] = cx.newsym(e.id, lo, hi, exact=False)
+                                    # the values the draw can actually take (for witnesses)
+                                    for sname in memo[e.id].symbols():
+                                        vals_[sname] = list(forms)
                 return None
             if isinstance(tg, ast.Name):
                 sid = len(cx.samples)
